@@ -400,12 +400,22 @@ Lemma S_mv_unfold a b t c :
                | None => (OErr, t)
                end.
 Proof.
-  intros Es. unfold S_mv, S_cp. rewrite Es. destruct (put_file _ _ _) as [t'|] eqn:Ep; [|done].
+  intros Es. unfold S_mv. rewrite Es. destruct (put_file _ _ _) as [t'|] eqn:Ep; [|done].
   apply put_file_Some in Ep as (t1 & Hm & Hp & Hk & Hd & ->). apply stat_file in Es as [Hl Hpa].
   unfold S_rm_one. destruct (decide (pk a = pk (mv_target a b t))) as [E|Hne].
   - rewrite (proj2 (stat_file a _ c)); [done|]. split; [rewrite E; by rewrite lookup_insert|done].
   - rewrite (proj2 (stat_file a _ c)); [done|]. split; [|done].
     rewrite lookup_insert_ne by done. by eapply mkdirs_keeps.
+Qed.
+Lemma same_file_spec a b c t :
+  stat a t = Some (File c) -> p_same_file a b t = same_entry a b.
+Proof.
+  intros Es. unfold p_same_file, p_canonicalize, same_entry. rewrite Es.
+  destruct (decide (pk a = pk b)) as [E|Hne].
+  - apply stat_file in Es as [Hl _].
+    assert (stat b t = if ptr b then None else Some (File c)) as -> by (unfold stat; by rewrite <- E, Hl).
+    destruct (ptr b); cbn [negb andb]; [done|]. by rewrite !bool_decide_eq_true_2.
+  - destruct (stat b t); cbn; rewrite ?(bool_decide_eq_false_2 _ Hne), ?andb_false_r; done.
 Qed.
 
 (* ---- per-command commuting lemmas: M_x = S_x --------------------------------------------------- *)
@@ -482,20 +492,20 @@ Proof.
   intros Hwf Ha Hb Hnd. pose proof (path_ok_nonempty _ Hb) as Hnb.
   unfold M_cp, S_cp, p_exists, p_is_file. unfold p_is_dir in Hnd. cbn [known_step].
   destruct (stat a t) as [[c|]|] eqn:Es; [|done|done]. intros Hk. cbn [negb].
+  rewrite (same_file_spec a b c t Es). destruct (same_entry a b) eqn:Esame; [done|].
   apply stat_file in Es as [Hl Hp].
   rewrite create_parent_spec, put_file_unfold by done.
   destruct (mkdirs (parent (pk b)) t) as [t1|] eqn:Em; [|by destruct (ptr b)].
   assert (t1 !! pk a = Some (File c)) as Hl1 by (by eapply mkdirs_keeps).
   destruct (ptr b) eqn:Epb.
-  - cbn [negb andb] in Hk. destruct (trailing_partial b t) eqn:Etp; [done|].
+  - destruct (trailing_partial b t) eqn:Etp; [done|].
     rewrite (p_copy_fail a b c) by auto. by rewrite (trailing_partial_false b t t1).
   - destruct (is_dir_at t1 (pk b)) eqn:Ed.
     + rewrite (p_copy_fail a b c) by auto. cbn [oerr].
       by rewrite (mkdirs_parent_of_dir t t1 (pk b)).
     + rewrite (p_copy_ok a b c); [|done|done|done|done|by eapply mkdirs_is_dir|done]. cbn [oerr].
       destruct (decide (pk a = pk b)) as [E|Hne]; [|done].
-      cbn [negb andb] in Hk. rewrite bool_decide_eq_true_2 in Hk by done. cbn [andb] in Hk.
-      destruct c; [done|done].
+      unfold same_entry in Esame. rewrite Epb, bool_decide_eq_true_2 in Esame by done. done.
 Qed.
 
 Lemma rm_one_refines r p t : M_rm_one r p t = S_rm_one r p t.
@@ -752,6 +762,7 @@ Qed.
 Lemma S_cp_wf a b t : wf t -> wf (S_cp a b t).2.
 Proof.
   intros Hwf. unfold S_cp. destruct (stat a t) as [[c|]|]; [|done|done].
+  destruct (same_entry a b); [done|].
   destruct (put_file b c t) eqn:E; [|done]. by eapply put_file_wf.
 Qed.
 Lemma S_step_wf o t : wf t -> dom_step o t = true -> wf (S_step o t).2.
@@ -768,10 +779,10 @@ Proof.
   - by apply S_cp_wf.
   - apply andb_true_iff in Hd as [[Ha Hb]%andb_true_iff _].
     unfold S_mv. destruct (stat a t) as [[c|]|]; [|done|done].
-    pose proof (S_cp_wf a (mv_target a b t) t Hwf) as H1.
-    destruct (S_cp a (mv_target a b t) t) as [o1 t1]. cbn [snd] in H1.
+    destruct (put_file (mv_target a b t) c t) as [t1|] eqn:E; [|done].
+    pose proof (put_file_wf _ _ _ _ Hwf E) as H1.
     pose proof (S_rm_one_wf false a t1 H1 (path_ok_nonempty _ Ha)) as H2.
-    destruct o1; try done. by destruct (S_rm_one false a t1).
+    by destruct (S_rm_one false a t1).
   - apply andb_true_iff in Hd as [Hps _]. unfold S_rm. destruct ps as [|p ps]; [done|].
     by apply S_rm_list_wf.
   - unfold S_rmdir. destruct (stat p t) as [[c|]|] eqn:Es; [done| |done].
@@ -799,18 +810,28 @@ Proof.
 Qed.
 
 Lemma known_step_range o t :
-  known_step o t = 0%N \/ known_step o t = 1%N \/ known_step o t = 2%N \/ known_step o t = 3%N
-  \/ known_step o t = 4%N.
+  known_step o t = 0%N \/ known_step o t = 1%N \/ known_step o t = 3%N \/ known_step o t = 4%N.
 Proof. destruct o; cbn [known_step]; repeat case_match; auto. Qed.
 Lemma Known_classes ops t :
-  Known ops t <-> KnownF15 ops t \/ KnownCpSelf ops t \/ KnownPartialParents ops t \/ KnownMvNoClobber ops t.
+  Known ops t <-> KnownF15 ops t \/ KnownPartialParents ops t \/ KnownMvNoClobber ops t.
 Proof.
-  unfold Known, KnownF15, KnownCpSelf, KnownPartialParents, KnownMvNoClobber.
+  unfold Known, KnownF15, KnownPartialParents, KnownMvNoClobber.
   revert t; induction ops as [|o r IH]; intros t; cbn [known_at]; [tauto|].
-  rewrite IH. destruct (known_step_range o t) as [E|[E|[E|[E|E]]]]; rewrite E; intuition congruence.
+  rewrite IH. destruct (known_step_range o t) as [E|[E|[E|E]]]; rewrite E; intuition congruence.
 Qed.
 Theorem refines_classes prn xdc xmd ops t :
   wf t -> in_domain ops t ->
-  ~ KnownF15 ops t -> ~ KnownCpSelf ops t -> ~ KnownPartialParents ops t -> ~ KnownMvNoClobber ops t ->
+  ~ KnownF15 ops t -> ~ KnownPartialParents ops t -> ~ KnownMvNoClobber ops t ->
   run (M_step prn xdc xmd) ops t = run S_step ops t.
-Proof. intros Hwf Hd H1 H2 H3 H4. apply refines; [done|done|]. rewrite Known_classes. tauto. Qed.
+Proof. intros Hwf Hd H1 H3 H4. apply refines; [done|done|]. rewrite Known_classes. tauto. Qed.
+
+(* cp of a file onto itself (however the target is written, as long as it resolves): an error that
+   changes nothing — in the commands and in the reference tree *)
+Lemma cp_self_error xdc a b c t :
+  stat a t = Some (File c) -> pk b = pk a -> ptr b = false ->
+  M_cp xdc a b t = (OErr, t) /\ S_cp a b t = (OErr, t).
+Proof.
+  intros Es Hk Hp. unfold M_cp, S_cp, p_exists, p_is_file. rewrite Es. cbn [negb].
+  rewrite (same_file_spec a b c t Es). unfold same_entry. rewrite Hp, Hk.
+  by rewrite bool_decide_eq_true_2.
+Qed.
